@@ -6,6 +6,7 @@ import (
 	"fmt"
 	"math/rand/v2"
 	"net/netip"
+	"slices"
 	"strings"
 
 	"github.com/cilium/statedb"
@@ -26,6 +27,7 @@ type Opts struct {
 	Iterators      bool            // change iterators + GC interplay (needs a started DB; run inside a synctest bubble)
 	Report         map[string]bool // violation classes to report: ret, query, frozen, rev, changes, abort
 	SchemaPick     []int           // indexes into Schemas to choose from (nil = all)
+	Initializers   bool            // transactions also register table initializers and mark them done
 	AbortPct       int
 	Ctl            *hookctl.Ctl      // hook controller (needed for ForceGC)
 	Quiesce        bool              // drain + bounded-collection checks (C08)
@@ -35,6 +37,43 @@ type Opts struct {
 }
 
 // forcedOp directs writeOp: kind 0 = Insert, 45 = Delete (see the ranges in writeOp).
+type initFn struct {
+	t    *simTable
+	name string
+	done func(statedb.WriteTxn)
+}
+
+// initOp registers an initializer for a table the transaction holds or marks a registered one done (idempotent; marking one
+// that is not pending, e.g. again or after the registering... round completed, changes nothing).
+func (s *Sim) initOp(what string, wtxn statedb.WriteTxn, t *simTable, working *TableModel) {
+	var mine []initFn
+	for _, f := range s.initFns {
+		if f.t == t {
+			mine = append(mine, f)
+		}
+	}
+	for _, f := range s.newInitFns {
+		if f.t == t {
+			mine = append(mine, f)
+		}
+	}
+	if len(mine) > 0 && s.Rng.IntN(2) == 0 {
+		f := mine[s.Rng.IntN(len(mine))]
+		s.Logf("%s %s initializer %s done", what, t.name, f.name)
+		f.done(wtxn)
+		if i := slices.Index(working.Pending, f.name); i >= 0 {
+			working.Pending = slices.Delete(slices.Clone(working.Pending), i, i+1)
+		}
+		return
+	}
+	s.nextInit++
+	name := fmt.Sprintf("i%d", s.nextInit)
+	s.Logf("%s %s.RegisterInitializer(%s)", what, t.name, name)
+	done := t.tbl.RegisterInitializer(wtxn, name)
+	working.Pending = append(slices.Clone(working.Pending), name)
+	s.newInitFns = append(s.newInitFns, initFn{t, name, done})
+}
+
 type forcedOp struct {
 	kind int
 	id   []byte
@@ -85,7 +124,10 @@ type Sim struct {
 	open                         statedb.WriteTxn // the write transaction in flight (aborted by Recover)
 	metrics                      *metricsRec
 	forceFull                    bool
-	bias                         string                         // "", "grow", "shrink" (wide schemas)
+	bias                         string   // "", "grow", "shrink" (wide schemas)
+	initFns, newInitFns          []initFn // done functions of committed / this transaction's registrations
+	nextInit                     int
+	foreign                      int                            // divergences seen that belong to other checks' classes
 	forceSet                     []*simTable                    // table set of the next RunTxn (nested transactions)
 	forced                       *forcedOp                      // the next RunTxn performs exactly this operation and commits
 	zombies                      []statedb.ChangeIterator[*Obj] // iterators created in transactions that aborted (kept reachable, not closed)
@@ -117,10 +159,17 @@ func (s *Sim) Violate(class, key, f string, a ...any) {
 	if s.Failed {
 		return
 	}
-	s.Failed = true
-	if !s.O.Report[class] {
+	if !s.O.Report[class] && !s.O.Report[class+"/"+key] {
+		// Not this check's property: the history goes on with the model's expectation, so that the consequences this check does
+		// own (a later battery, a retained snapshot, an abort comparison) are still observed.
+		s.Logf("(divergence of class %s/%s, owned by another check: %s)", class, key, fmt.Sprintf(f, a...))
+		s.foreign++
+		if s.foreign > 20 {
+			s.Failed = true
+		}
 		return
 	}
+	s.Failed = true
 	tail := s.Log
 	if len(tail) > 250 {
 		tail = tail[len(tail)-250:]
@@ -755,6 +804,10 @@ func (s *Sim) RunTxn(i int) {
 				}
 			}
 		}
+		if s.O.Initializers && inSet[t] && s.Rng.IntN(12) == 0 {
+			s.initOp(what, wtxn, t, working[t])
+			continue
+		}
 		switch x := s.Rng.IntN(100); {
 		case x < 72:
 			s.writeOp(what, wtxn, t, working[t], inSet[t])
@@ -780,6 +833,7 @@ func (s *Sim) RunTxn(i int) {
 	}
 	if s.forced == nil && s.Rng.IntN(100) < s.O.AbortPct {
 		s.Logf("%s Abort", what)
+		s.newInitFns = nil // done functions of registrations in an aborted transaction are never called
 		wtxn.Abort()
 		s.aborts++
 		s.abortIterators(what, wtxn)
@@ -798,6 +852,10 @@ func (s *Sim) RunTxn(i int) {
 		s.txnChanged[t] = working[t].Rev != t.committed.Rev
 	}
 	rtxn := wtxn.Commit()
+	for _, f := range s.newInitFns {
+		s.initFns = append(s.initFns, f)
+	}
+	s.newInitFns = nil
 	s.waitRegistration()
 	s.commits++
 	for _, t := range set {
